@@ -101,6 +101,10 @@ def gen_requests(rng, ent):
     for _ in range(n):
         kind = rng.choice(["stmt", "ccstmt", "invstmt", "stmtend", "ccstmtend"])
         r = {"kind": kind, "acctid": caller_str(rng, 22, ent), "dtstart": gen_dt(rng), "dtend": gen_dt(rng)}
+        if rng.random() < 0.08:
+            # an account number longer than the 22 characters OFX allows: the library warns and sends it whole (the identifiers of two
+            # such accounts agree in their first 22 characters)
+            r["acctid"] = ("LONG-ACCT-0123456789-AB" + r["acctid"])[: rng.randint(23, 40)].rstrip()
         if kind in ("stmt", "stmtend"):
             r["accttype"] = rng.choice(ACCTTYPES)
         if kind in ("stmt", "ccstmt", "invstmt"):
